@@ -23,6 +23,7 @@ REQUIRED_COUNTERS = ['chains_completed', 'centroid_node_pairs_checked',
                      'stage_handoffs_observed', 'draws_checked',
                      'chains_with_a_node_wider_than_4x_reported_candidates',
                      'chains_with_a_parent_of_one_leaf_children',
+                     'chains_with_a_leaf_without_reference_cells',
                      'chains_at_factor_one_with_several_iterations']
 RULE = ('case = generated labelled reference (separable clusters, 2-4 '
         'levels, 5-9 leaves, leaf names in non-alphabetical creation order) '
@@ -67,6 +68,8 @@ def gen_cases(tier, seed):
             # are then not aggregated), next to one with a two-leaf child
             cases[-1].update({'n_levels': 3, 'n_leaves': 7,
                               'one_leaf_children': True})
+        if i % 4 == 2:
+            cases[-1]['empty_leaf'] = True
         if i % 4 == 3:
             # a wide node: one parent with far more children than
             # runners-up are reported
@@ -250,8 +253,26 @@ def run_case(spec, work):
     lookup = work / 'lookup.json'
     stage = 'statistics'
     try:
-        pw.run_stats(ref, stats, tmp, n_processors=spec['n_proc'],
-                     rows_at_a_time=int(rng.integers(3, 40)))
+        if spec.get('empty_leaf'):
+            # the taxonomy names a leaf that has no cell in the reference
+            # data (statistics entered with an explicit tree)
+            lf_lv = model.leaf_level
+            model.nodes[lf_lv].append('EMPTY_LEAF')
+            if len(model.hierarchy) > 1:
+                up = model.hierarchy[-2]
+                model.parent[lf_lv]['EMPTY_LEAF'] = model.nodes[up][
+                    int(rng.integers(len(model.nodes[up])))]
+            # (this entry point addresses cells by row number)
+            model.cells = {lf: [j for j, l in enumerate(ref.labels)
+                                if l == lf] for lf in model.leaves}
+            pw.run_stats_with_tree(
+                ref, stats, tmp, model.to_dict(with_cells=True),
+                n_processors=spec['n_proc'],
+                rows_at_a_time=int(rng.integers(3, 40)))
+            bump('chains_with_a_leaf_without_reference_cells')
+        else:
+            pw.run_stats(ref, stats, tmp, n_processors=spec['n_proc'],
+                         rows_at_a_time=int(rng.integers(3, 40)))
         bump('stage_handoffs_observed')
         stage = 'reference markers'
         if spec['route'] == 'direct':
@@ -271,7 +292,7 @@ def run_case(spec, work):
         stage = 'query-marker selection'
         # centroid query: leaf means read from the statistics file
         means, cols = vote_oracle.read_leaf_means(stats)
-        leaves = list(model.leaves)
+        leaves = [lf for lf in model.leaves if lf != 'EMPTY_LEAF']
         rng.shuffle(leaves)
         perm = rng.permutation(len(cols))
         qgenes = [cols[i] for i in perm]
